@@ -489,7 +489,8 @@ class Phase(Angle):
                     f24 = "{:02d}".format(f24 - 25)
                 frac_str = frac_str[:2] + f24 + frac_str[4:]
             else:
-                frac_str = func(frac)
+                # abs() only to turn a negative zero into a positive one.
+                frac_str = func(abs(frac))
                 if frac_str[0] == "1":
                     count += 1
             s = sign + str(int(count)) + frac_str[1:]
